@@ -43,6 +43,9 @@ pub struct Ledger {
     pub clone_calls: u32,
     pub clone_panic_at: Option<u32>,
     pub injected_panics: u32,
+    /// destructor runs of zero-sized `Token` elements (they have no identity: counted only)
+    #[serde(default)]
+    pub zst_drops: u32,
 }
 
 static LEDGER: Mutex<Ledger> = Mutex::new(Ledger {
@@ -56,6 +59,7 @@ static LEDGER: Mutex<Ledger> = Mutex::new(Ledger {
     clone_calls: 0,
     clone_panic_at: None,
     injected_panics: 0,
+    zst_drops: 0,
 });
 
 fn ledger() -> std::sync::MutexGuard<'static, Ledger> {
@@ -217,6 +221,29 @@ impl Obs for &Plain {
             raw: self.id as u64,
             payload: self.payload,
             addr: *self as *const Plain as usize,
+            gen: 0,
+        }
+    }
+}
+
+/// Zero-sized element with a destructor (kinds `VecZst`, `ArrayZst`; added after the seeded
+/// changes C03-r2 / C10-r2 / C15-r2, which all broke zero-sized elements only). It has no identity:
+/// the harness labels it with the index the crate reports and the ledger only counts destructor runs.
+pub struct Token;
+
+impl Drop for Token {
+    fn drop(&mut self) {
+        let _p = alloc::pause();
+        ledger().zst_drops += 1;
+    }
+}
+
+impl Obs for Token {
+    fn obs(&self) -> ItemObs {
+        ItemObs {
+            raw: u64::MAX,
+            payload: 0,
+            addr: 0,
             gen: 0,
         }
     }
